@@ -60,8 +60,8 @@ Proof.
   now rewrite <- (R2_has _ _ _ n H1), <- (R2_has _ _ _ n H2), E1, E2.
 Qed.
 
-Lemma resource_decl_sim l b docs i ms l' :
-  Rloc l b -> resource_decl l i ms = DOk l' ->
+Lemma resource_decl_sim dup l b docs i ms l' :
+  Rloc l b -> resource_decl dup l i ms = DOk l' ->
   aext (l_types l) (l_types l') /\ exists b', den_decl b (Ast.DResource docs i ms) = Some b' /\ Rloc l' b'.
 Proof.
   intros [He Hx] H. rewrite resource_decl_eq in H.
@@ -95,8 +95,8 @@ Definition den_item_plain (b : body) (d : Ast.item_type_decl) : option body :=
   | None => None
   end.
 
-Lemma item_plain_sim l b d l' :
-  Rloc l b -> item_plain l d = DOk l' ->
+Lemma item_plain_sim dup l b d l' :
+  Rloc l b -> item_plain dup l d = DOk l' ->
   aext (l_types l) (l_types l') /\ exists b', den_item_plain b d = Some b' /\ Rloc l' b'.
 Proof.
   intros [He Hx] H. unfold item_plain in H. dinv H as [[x t1] [E1 H]]. dinv H as [cur1 [E2 H]].
@@ -110,17 +110,17 @@ Proof.
   - apply R2_snoc; [eapply Rexts_aext; eassumption | now apply rel_item_uk].
 Qed.
 
-Lemma item_type_decl_sim l b d l' :
-  Rloc l b -> item_type_decl l d = DOk l' ->
+Lemma item_type_decl_sim dup l b d l' :
+  Rloc l b -> item_type_decl dup l d = DOk l' ->
   aext (l_types l) (l_types l') /\ exists b', den_decl b d = Some b' /\ Rloc l' b'.
 Proof.
   intros Hl H. destruct d as [docs id ms|docs id cs|docs id fs|docs id fl|docs id cs|docs id k].
   - eapply resource_decl_sim; eassumption.
-  - apply (item_plain_sim l b (Ast.DVariant docs id cs) l' Hl H).
-  - apply (item_plain_sim l b (Ast.DRecord docs id fs) l' Hl H).
-  - apply (item_plain_sim l b (Ast.DFlags docs id fl) l' Hl H).
-  - apply (item_plain_sim l b (Ast.DEnum docs id cs) l' Hl H).
-  - apply (item_plain_sim l b (Ast.DAlias docs id k) l' Hl H).
+  - apply (item_plain_sim dup l b (Ast.DVariant docs id cs) l' Hl H).
+  - apply (item_plain_sim dup l b (Ast.DRecord docs id fs) l' Hl H).
+  - apply (item_plain_sim dup l b (Ast.DFlags docs id fl) l' Hl H).
+  - apply (item_plain_sim dup l b (Ast.DEnum docs id cs) l' Hl H).
+  - apply (item_plain_sim dup l b (Ast.DAlias docs id k) l' Hl H).
 Qed.
 
 (** * [use] *)
@@ -226,7 +226,7 @@ Proof.
               end = Some b1 /\ Rloc l1 b1).
     { destruct it as [u|d|docs i r].
       - destruct (use_type_sim _ _ _ _ _ _ _ _ Hf Hg Hp Hl E1) as [Ht R1]. rewrite Ht. split; [apply frame_refl | exact R1].
-      - split; [apply (item_type_decl_frame _ _ _ E1) | apply (item_type_decl_sim _ _ _ _ Hl E1)].
+      - split; [apply (item_type_decl_frame _ _ _ _ E1) | apply (item_type_decl_sim _ _ _ _ _ Hl E1)].
       - destruct Hl as [He Hx]. dinv E1 as [[f t1] [E0 E1]]. change (name_of i) with (nm i) in E1.
         destruct (has (nm i) (l_exts l)) eqn:Eh; [discriminate|]. injection E1 as <-. cbn [l_types].
         destruct (func_type_ref_sim _ _ _ _ _ _ He E0) as [X1 [ft [D1 U1]]]. split; [eapply func_type_ref_frame; exact E0|].
